@@ -562,6 +562,15 @@ func (e *specEnv) evalCall(s *SExpr) T {
 		// bigval(p): mathematical value of *big.Int p
 		p := e.eval(s.Args[0])
 		return mkMath(x.bigVal(e.cur(), p.S))
+	case "big2str":
+		x.d.declareFun("big2str", []string{"Int"}, "Str")
+		return T{S: app("big2str", e.eval(s.Args[0]).S), Ty: tyString}
+	case "hexenc":
+		x.d.declareFun("hex_enc", []string{"(Slc Int)"}, "Str")
+		return T{S: app("hex_enc", e.eval(s.Args[0]).S), Ty: tyString}
+	case "itoa":
+		x.d.declareFun("itoa", []string{"Int"}, "Str")
+		return T{S: app("itoa", e.eval(s.Args[0]).S), Ty: tyString}
 	case "bytes2big":
 		b := e.eval(s.Args[0])
 		x.d.declareFun("bytes2big", []string{"(Slc Int)"}, "Int")
